@@ -182,6 +182,23 @@ def assume(t: Term, facts: Any) -> Term:
     return t
 
 
+def is_map_get(x: Term) -> bool:
+    return x[0] == "call" and x[1][0] == "a" and x[1][2] == "get" and not x[3] and len(x[2]) >= 1
+
+
+def refine_lookups(t: Any, fact: Term) -> Any:
+    """given `k in m`: m.get(k) / m.get(k, None) is m[k]"""
+    maps = {}
+    for c in conjuncts(fact):
+        if c[0] == "cmp" and c[1] == "in":
+            k_, m_ = c[2], c[3]
+            maps[("call", ("a", m_, "get"), (k_,), ())] = ("s", m_, k_)
+            maps[("call", ("a", m_, "get"), (k_, C(None)), ())] = ("s", m_, k_)
+    if not maps or not isinstance(t, tuple):
+        return t
+    return substitute(t, maps) if any(x in maps for x in subterms(t)) else t
+
+
 def mk_sub(base: Term, idx: Term) -> Term:
     """subscript; a constant position of a loop element is the same thing as unpacking the element in the loop header"""
     if base[0] == "e" and len(base) == 3 and is_int_const(idx) and idx[1] >= 0:
@@ -1102,6 +1119,12 @@ class Norm:
             return a
         if c == C(False):
             return b
+        # `D if k not in m else m[k]` (or m.get(k)) is m.get(k, D)
+        if c[0] == "cmp" and c[1] in ("in", "notin"):
+            dflt, val = (a, b) if c[1] == "notin" else (b, a)
+            k_, m_ = c[2], c[3]
+            if val in (("s", m_, k_), ("call", ("a", m_, "get"), (k_,), ()), ("call", ("a", m_, "get"), (k_, C(None)), ())):
+                return ("call", ("a", m_, "get"), (k_, dflt), ())
         # `x if x else y` is `x or y`; `y if not x else x` likewise; `x if not x else y` is `x and y`
         if c == a:
             return mk_or([a, b])
@@ -1290,6 +1313,11 @@ class Norm:
                 return mk_cmpz(name, lin_add(a, b, -1))
         if is_const(a) and is_const(b) and name in ("==", "!="):
             return C((a[1] == b[1]) if name == "==" else (a[1] != b[1]))
+        if name in ("is", "isnot") and C(None) in (a, b):
+            # `m.get(k) is None` is `k not in m` (mappings here hold no None values)
+            x = a if b == C(None) else b
+            if is_map_get(x) and len(x[2]) in (1, 2) and (len(x[2]) == 1 or x[2][1] == C(None)):
+                return ("cmp", "notin" if name == "is" else "in", x[2][0], x[1][1])
         if name == ">":
             return ("cmp", "<", b, a)
         if name == ">=":
